@@ -6,7 +6,7 @@ M9 (engine part) — the engine entry point: `workflowEngine.Parse` / `RunWorkfl
 What is modelled statement by statement: the default file name, the lookup of the workflow file in the cache, the
 recursive discovery of sub-workflow files (a fresh `NewFileCacheUsingContext(rootDir, paths)` + `LoadContext` per
 workflow, the chain of parent files for self references, the growing `flowCaches` list with its `nil` entries),
-`MergeFileCaches` (nil skipped, last writer wins per key, root-directory comparison), the version check, stage 6 of
+`MergeFileCaches` (nil skipped, last writer wins per key, root directories compared with `sameDirectory`), the version check, stage 6 of
 `Prepare` (explicit output schema table vs inferred schema: error flag = `outputID == "error"`), `Run` (input
 decoding, `Execute`, look-up of the output schema, error flag) and every error return with `("", nil, true, err)`.
 
@@ -71,22 +71,27 @@ inductive Err
   | noOutputSchema        -- Run: "bug: the output schema has no output named"
   deriving DecidableEq, Repr, Inhabited
 
+/-- `sameDirectory(dir1, dir2)`: equal spellings, or equal `filepath.Abs` of both (`abs` = filepath.Abs in the current
+    working directory; its error return — the working directory cannot be determined — is not modelled) -/
+def sameDirectory (abs : String → String) (dir1 dir2 : String) : Bool :=
+  dir1 == dir2 || abs dir1 == abs dir2
+
 /-- one iteration of the loop of `MergeFileCaches` for a non-nil cache -/
-def mergeStep (acc fc : FileCache) : Except Err FileCache :=
-  if acc.rootDir ≠ "" ∧ acc.rootDir ≠ fc.rootDir then .error .rootMismatch
+def mergeStep (abs : String → String) (acc fc : FileCache) : Except Err FileCache :=
+  if acc.rootDir ≠ "" ∧ sameDirectory abs acc.rootDir fc.rootDir = false then .error .rootMismatch
   else .ok { rootDir := fc.rootDir, files := putAll fc.files acc.files }
 
-def mergeFrom (acc : FileCache) : List (Option FileCache) → Except Err FileCache
+def mergeFrom (abs : String → String) (acc : FileCache) : List (Option FileCache) → Except Err FileCache
   | [] => .ok acc
-  | none :: r => mergeFrom acc r
+  | none :: r => mergeFrom abs acc r
   | some fc :: r =>
-    match mergeStep acc fc with
+    match mergeStep abs acc fc with
     | .error e => .error e
-    | .ok acc' => mergeFrom acc' r
+    | .ok acc' => mergeFrom abs acc' r
 
 /-- `loadfile.MergeFileCaches(fileCaches...)`; `none` = a nil `FileCache` -/
-def mergeFileCaches (cs : List (Option FileCache)) : Except Err FileCache :=
-  mergeFrom { rootDir := "", files := [] } cs
+def mergeFileCaches (abs : String → String) (cs : List (Option FileCache)) : Except Err FileCache :=
+  mergeFrom abs { rootDir := "", files := [] } cs
 
 /-- the entry of key `k` in the last cache of the list that has one (what "last writer wins" means) -/
 def lastWins (k : String) : List (Option FileCache) → Option CtxFile
@@ -191,6 +196,21 @@ def loadCache (env : Env P I D) (rootDir : String) (paths : List String) : Excep
         .ok { fc with files := putFile f { id := f, absPath := resolve env absDir f, content := c } fc.files })
     (.ok { rootDir := absDir, files := [] })
 
+/-- the body of `for _, ctxFile := range stepFilesCache.Files()` in `subworkflowCache`; `recur` is the recursive call -/
+def visitStep (env : Env P I D)
+    (recur : Wf → List (Option FileCache) → List String → Except Err (Option FileCache)) (parents : List String)
+    (acc : Except Err (List (Option FileCache))) (kv : String × CtxFile) : Except Err (List (Option FileCache)) :=
+  match acc with
+  | .error e => .error e
+  | .ok caches =>
+    if parents.contains kv.2.absPath then .error .selfReference else
+    match env.fromYAML kv.2.content with
+    | none => .error .yaml
+    | some subwf =>
+      match recur subwf caches (parents ++ [kv.2.absPath]) with
+      | .error e => .error e
+      | .ok flowCache => .ok (caches ++ [flowCache])
+
 /-- `subworkflowCache(wf, rootDir, converter, flowCaches, parentFiles)`; the files of the step cache are visited in
     list order (Go: map order — every visit order gives caches that agree on shared keys, see `loaded_caches_agree`) -/
 def subworkflowCache (env : Env P I D) : Nat → Wf → String → List (Option FileCache) → List String →
@@ -201,23 +221,11 @@ def subworkflowCache (env : Env P I D) : Nat → Wf → String → List (Option 
     match loadCache env rootDir wf.refs with
     | .error e => .error e
     | .ok stepCache =>
-      let visit : Except Err (List (Option FileCache)) :=
-        stepCache.files.foldl (fun acc kv =>
-          match acc with
-          | .error e => .error e
-          | .ok caches =>
-            if parents.contains kv.2.absPath then .error .selfReference else
-            match env.fromYAML kv.2.content with
-            | none => .error .yaml
-            | some subwf =>
-              match subworkflowCache env fuel subwf rootDir caches (parents ++ [kv.2.absPath]) with
-              | .error e => .error e
-              | .ok flowCache => .ok (caches ++ [flowCache]))
-          (.ok flowCaches)
-      match visit with
+      match stepCache.files.foldl
+          (visitStep env (fun w c p => subworkflowCache env fuel w rootDir c p) parents) (.ok flowCaches) with
       | .error e => .error e
       | .ok caches =>
-        match mergeFileCaches (caches ++ [some stepCache]) with
+        match mergeFileCaches env.abs (caches ++ [some stepCache]) with
         | .error e => .error e
         | .ok m => .ok (some m)
 
@@ -233,7 +241,7 @@ def parseFiles (env : Env P I D) (fuel : Nat) (files : FileCache) (name : String
       | .error e => .error e
       | .ok none => .ok (wf, files)
       | .ok (some sc) =>
-        match mergeFileCaches [some sc, some files] with
+        match mergeFileCaches env.abs [some sc, some files] with
         | .error e => .error e
         | .ok m => .ok (wf, m)
 
